@@ -9,7 +9,7 @@ git -C $wt checkout -q --detach $(git -C /repo rev-parse HEAD) 2>/dev/null
 git -C $wt checkout -q -- . ; git -C $wt clean -fdq
 mkdir -p $out
 run_demo() { (cd $wt && PYTHONPATH=$wt CUDA_VISIBLE_DEVICES="" timeout 900 /venv/bin/python $demo > $out/$1.log 2>&1; echo $?); }
-sed "s#/tmp/seed_[A-Za-z0-9]*#$wt#g" $demo > $wt/_demo.py; demo=$wt/_demo.py
+sed "s#/tmp/seed[0-9]*_[A-Za-z0-9]*#$wt#g" $demo > $wt/_demo.py; demo=$wt/_demo.py
 clean_rc=$(run_demo demo_clean)
 git -C $wt apply $patch || { echo "PATCH DOES NOT APPLY"; exit 2; }
 mut_rc=$(run_demo demo_mutant)
